@@ -125,12 +125,13 @@ func stdioServerMain(args []string) int {
 }
 
 type c01World struct {
-	mode    string
-	url     string
-	ts      *httptest.Server
-	dir     string
-	runFile string
-	cleanup []func()
+	nclients int
+	mode     string
+	url      string
+	ts       *httptest.Server
+	dir      string
+	runFile  string
+	cleanup  []func()
 }
 
 func c01NewWorld(mode string, onRun func(string)) (*c01World, error) {
@@ -209,6 +210,17 @@ func (w *splitRW) Flush() {
 	}
 }
 
+// slowAckHandler hands the response of a POST to the client 15 ms late.
+type slowAckHandler struct{}
+
+func (slowAckHandler) Handle(ctx context.Context, client *http.Client, req *http.Request) (*http.Response, error) {
+	resp, err := client.Do(req.WithContext(ctx))
+	if req.Method == http.MethodPost {
+		time.Sleep(15 * time.Millisecond)
+	}
+	return resp, err
+}
+
 func (w *c01World) close() {
 	for _, f := range w.cleanup {
 		f()
@@ -228,7 +240,13 @@ func (w *c01World) newClient() (c01Caller, error) {
 	var err error
 	switch w.mode {
 	case "legacy":
-		c, err = mcp.NewSSEClient(w.url, info, mcp.WithClientLogger(silentLogger{}))
+		// the acknowledgement of a POST reaches every other client late (a slow path back): the answer may be on the stream first
+		w.nclients++
+		if w.nclients%2 == 0 {
+			c, err = mcp.NewSSEClient(w.url, info, mcp.WithClientLogger(silentLogger{}), mcp.WithHTTPReqHandler(slowAckHandler{}))
+		} else {
+			c, err = mcp.NewSSEClient(w.url, info, mcp.WithClientLogger(silentLogger{}))
+		}
 	case "stdio":
 		exe, _ := os.Executable()
 		c, err = mcp.NewStdioClient(mcp.StdioTransportConfig{ServerParams: mcp.StdioServerParameters{Command: exe, Args: []string{"stdioserver", w.runFile}},
@@ -295,6 +313,11 @@ func c01Call(ctx context.Context, c c01Caller, kind int, nonce string, delay, pa
 		req := &mcp.CallToolRequest{}
 		req.Params.Name = "echo"
 		req.Params.Arguments = map[string]interface{}{"nonce": nonce, "delay_ms": delay, "pad": pad}
+		if pad < 0 {
+			// a large REQUEST (5 MiB of an argument the tool ignores), a small answer
+			req.Params.Arguments["pad"] = 0
+			req.Params.Arguments["ballast"] = strings.Repeat("q", 5<<20)
+		}
 		res, err := c.CallTool(ctx, req)
 		if err != nil {
 			return "", err
@@ -406,6 +429,9 @@ func c01Load(in c01LoadIn) (out c01LoadOut) {
 					pad = []int{5000, 70000, 300000}[rnd.Intn(3)]
 				}
 				plans[key] = append(plans[key], plan{rnd.Intn(4), d, pad})
+			}
+			if ci == 0 && wi == 0 && in.Mode != "stdio" && in.StartID == 0 {
+				plans[key] = append(plans[key], plan{0, 0, -1})
 			}
 		}
 	}
